@@ -351,6 +351,44 @@ pub fn mutations(j: &Value, w: &World, adv: &World, msg: &[u8], rng: &mut ChaCha
         v["signatures"].as_array_mut().unwrap().reverse();
         push("entries_reversed", v);
     }
+    // --- forged extra slot hidden behind a duplicated batch-path index: the genuine entry keeps its
+    // real siblings, a second entry with the same sigma/key claims the whole stake (and the indices
+    // that stake would win); its "siblings" are junk placed where a second walk would consume them
+    for s in 0..n {
+        let sigma = refagg::bytes_of(&j["signatures"][s][0]["sigma"]);
+        let won: Vec<u64> = (0..m)
+            .filter(|&i| {
+                let ev = refagg::draw(&msgp, i, &sigma);
+                crate::reflot::won_f64(w.params.phi_f, &ev, w.total_stake, w.total_stake) == Some(true)
+            })
+            .filter(|i| (0..n).all(|t| !idx_list(j, t).contains(i)))
+            .collect();
+        if won.is_empty() || s >= indices.len() {
+            continue;
+        }
+        let mut forged = j["signatures"][s].clone();
+        forged[1][1] = json!(w.total_stake);
+        forged[0]["indexes"] = json!(won);
+        let junk = to_bytes_json(&rnd::bytes(rng, 32));
+        let depth = values.len();
+        let value_layouts: Vec<(&str, Vec<Value>)> = vec![
+            ("interleave_after", values.iter().flat_map(|v| vec![v.clone(), junk.clone()]).collect()),
+            ("interleave_before", values.iter().flat_map(|v| vec![junk.clone(), v.clone()]).collect()),
+            ("append", values.iter().cloned().chain(std::iter::repeat(junk.clone()).take(depth.max(1))).collect()),
+            ("prepend", std::iter::repeat(junk.clone()).take(depth.max(1)).chain(values.iter().cloned()).collect()),
+            ("unchanged", values.clone()),
+        ];
+        for (lname, vals) in value_layouts {
+            for forged_first in [false, true] {
+                let mut v = j.clone();
+                let pos = if forged_first { s } else { s + 1 };
+                v["signatures"].as_array_mut().unwrap().insert(pos, forged.clone());
+                v["batch_proof"]["indices"].as_array_mut().unwrap().insert(s, json!(indices[s]));
+                v["batch_proof"]["values"] = Value::Array(vals.clone());
+                push(&format!("forged_slot_behind_duplicated_path_index:{lname}:{}", if forged_first { "forged_first" } else { "forged_second" }), v);
+            }
+        }
+    }
     // --- whole aggregate of the adversarial registration presented against W's key
     {
         let sigs = adv.sign_all(msg);
